@@ -42,6 +42,43 @@ func keyFor(kind string, d dump.Diff) string {
 	return "C02:" + kind + ":" + d.Table + ":" + dump.FieldName(d.A, d.B)
 }
 
+// Tables that consul does not persist but rebuilds during restore from the base tables.
+var derivedTables = map[string]bool{"kind-service-names": true, "usage": true, "mesh-topology": true, "gateway-services": true}
+
+// diffKey: base tables get a fine-grained key (table + differing fields); for the rebuilt tables the
+// row pairing is not stable enough for that, so the key is table + whether only index stamps differ.
+func diffKey(x dump.RowDiff) string {
+	if !derivedTables[x.Table] {
+		return x.Key()
+	}
+	if x.Kind == "changed" {
+		only := true
+		for _, f := range x.Fields {
+			if f != "raftindex" && f != "index" && f != "RaftIndex" && f != "Index" {
+				only = false
+			}
+		}
+		if only {
+			return "derived:" + x.Table + ":index-only"
+		}
+	}
+	return "derived:" + x.Table + ":content"
+}
+
+// normalize drops usage rows whose count is zero: a missing row and a zero count are the same
+// answer for every usage query.
+func normalize(d *dump.Dump) *dump.Dump {
+	rows := d.Tables["usage"]
+	var keep []string
+	for _, r := range rows {
+		if strings.Contains(r, "Count:") || strings.Contains(r, "count:") {
+			keep = append(keep, r)
+		}
+	}
+	d.Tables["usage"] = keep
+	return d
+}
+
 func TestZZVerifC02(t *testing.T) {
 	run := core.NewRun("C02", "exploration",
 		"PRNG-generated command histories (same generator as C01: all FSM command families) applied to a live replica A; at cut points k (quick: every 7th prefix; thorough: every prefix) A is snapshotted through FSM.Snapshot().Persist, a fresh replica R restores the bytes through FSM.Restore; oracle: canonical dump(R) == dump(A_k) for every memdb table incl. derived tables and the index table, then h[k:] is applied to A' (a second live replica that replayed h[:k]) and R: every command result and the final dumps must be equal. non-trivial = cut whose snapshot had rows in >=8 tables incl. >=1 derived table (gateway-services, mesh-topology, kind-service-names, service-virtual-ips, usage); distinct by snapshot dump hash")
@@ -91,14 +128,14 @@ func TestZZVerifC02(t *testing.T) {
 			}
 			core.Progress("C02", fmt.Sprintf("history %d cut %d", h, k))
 			run.Eval()
-			before := dump.Of(live.State())
+			before := normalize(dump.Of(live.State()))
 			snap, err := live.SnapshotBytes()
 			if err != nil {
 				run.Violation("C02:snapshot-error", fmt.Sprintf("history %d cut %d: snapshot failed: %v", h, k, err), map[string]any{"log": descs(log[:k])})
 				continue
 			}
 			// taking a snapshot must not change the live state
-			if d := dump.Compare(before, dump.Of(live.State()), 3, nil); len(d) > 0 {
+			if d := dump.Compare(before, normalize(dump.Of(live.State())), 3, nil); len(d) > 0 {
 				run.Violation(keyFor("snapshot-mutates-live", d[0]), fmt.Sprintf("history %d cut %d: taking a snapshot changed the live state: %s: %s", h, k, d[0].Table, dump.FieldDiff(d[0].A, d[0].B)), map[string]any{"log": descs(log[:k]), "diffs": d})
 			}
 			r := fsmkit.New(fsmkit.Opts{})
@@ -107,7 +144,7 @@ func TestZZVerifC02(t *testing.T) {
 				r.Close()
 				continue
 			}
-			after := dump.Of(r.State())
+			after := normalize(dump.Of(r.State()))
 			nd := 0
 			for _, tn := range before.NonEmptyTables() {
 				run.Distinct("table-in-snapshot", tn)
@@ -119,22 +156,39 @@ func TestZZVerifC02(t *testing.T) {
 				run.NonTrivial(before.Hash())
 			}
 			bad := false
-			if d := dump.Compare(before, after, 6, nil); len(d) > 0 {
-				seen := map[string]bool{}
-				for _, x := range d {
-					key := keyFor("restored-state", x)
-					if seen[key] {
-						continue
-					}
-					seen[key] = true
-					if run.Violation(key, fmt.Sprintf("history %d cut %d: restored replica differs from the live one in table %s: %s", h, k, x.Table, dump.FieldDiff(x.A, x.B)),
+			differs := false
+			restoredKeys := map[string]bool{}
+			if d := dump.RowDiffs(before, after, 400, nil); len(d) > 0 {
+				// differences that vanish when letter case is ignored come from case-variant node
+				// names (n1 / N1 are one node for the catalog): one specific class of their own
+				fd := dump.RowDiffs(before.Fold(), after.Fold(), 400, nil)
+				if len(fd) < len(d) {
+					if run.Violation("C02:restored-state:case-variant-node-name", fmt.Sprintf("history %d cut %d: rows registered under a case-variant of an existing node name come back under the node's canonical name, e.g. live=%s restored=%s", h, k, trunc(d[0].A, 200), trunc(d[0].B, 200)),
 						map[string]any{"log": descs(log[:k]), "diffs": d}) {
 						bad = true
 					}
 				}
+				d = fd
+				seen := map[string]bool{}
+				for _, x := range d {
+					key := "C02:restored-state:" + diffKey(x)
+					restoredKeys[key] = true
+					if seen[key] {
+						continue
+					}
+					seen[key] = true
+					if run.Violation(key, fmt.Sprintf("history %d cut %d: restored replica differs from the live one: table %s %s row: live=%s restored=%s", h, k, x.Table, x.Kind, trunc(x.A, 300), trunc(x.B, 300)),
+						map[string]any{"log": descs(log[:k]), "diff": x}) {
+						bad = true
+					}
+				}
+				if len(d) > 0 {
+					differs = true
+				}
 			}
 			// suffix on both: a twin of the live replica (re-played) and the restored one
 			if !bad && k < ln {
+				_ = differs
 				twin := fsmkit.New(fsmkit.Opts{})
 				for _, e := range log[:k] {
 					twin.ApplyBytes(e.Idx, e.bytes)
@@ -151,9 +205,27 @@ func TestZZVerifC02(t *testing.T) {
 					}
 				}
 				if !bad {
-					if d := dump.Compare(dump.Of(twin.State()), dump.Of(r.State()), 4, nil); len(d) > 0 {
-						run.Violation(keyFor("suffix-final-state", d[0]), fmt.Sprintf("history %d cut %d: after applying the suffix the restored replica differs in table %s: %s", h, k, d[0].Table, dump.FieldDiff(d[0].A, d[0].B)),
-							map[string]any{"log": descs(log), "cut": k, "diffs": d})
+					seen := map[string]bool{}
+					for _, x := range dump.RowDiffs(normalize(dump.Of(twin.State())).Fold(), normalize(dump.Of(r.State())).Fold(), 400, nil) {
+						key := "C02:suffix-final-state:" + diffKey(x)
+						// the rebuilt tables already differ right after the restore (reported under
+						// restored-state); the same difference carried through the suffix is the same finding
+						if derivedTables[x.Table] || restoredKeys["C02:restored-state:"+diffKey(x)] {
+							key = "C02:restored-state:" + diffKey(x)
+						} else if x.Table == "index" {
+							for dt := range derivedTables {
+								n := strings.ReplaceAll(dt, "-", "_")
+								if strings.Contains(x.A+x.B, `key:"`+dt) || strings.Contains(x.A+x.B, `key:"`+n) {
+									key = "C02:restored-state:derived:" + dt + ":index-only"
+								}
+							}
+						}
+						if seen[key] {
+							continue
+						}
+						seen[key] = true
+						run.Violation(key, fmt.Sprintf("history %d cut %d: after applying the suffix the restored replica differs: table %s %s row: live=%s restored=%s", h, k, x.Table, x.Kind, trunc(x.A, 300), trunc(x.B, 300)),
+							map[string]any{"log": descs(log), "cut": k, "diff": x})
 					}
 				}
 				twin.Close()
